@@ -269,7 +269,7 @@ def base_layer(layer: str, prog: dict):
         t = node(spec=node(a=leaf(1), b=leaf("x")), metadata=node(labels=node(app=leaf("t"))))
         if prog.get("tmplForm") == "ref":   # a ResourceTemplate must name some apiVersion / kind
             kind, _ = kind_for(prog["prefix"], prog["namespaced"])
-            t = tree_merge(t, node(apiVersion=leaf(API_VERSION), kind=leaf(kind)))
+            t = tree_merge(t, node(apiVersion=leaf(prog.get("apiVersion", API_VERSION)), kind=leaf(kind)))
         return t
     return node(spec=node(**{f"from_{layer}": leaf(True)}))
 
@@ -296,7 +296,9 @@ def build(prog: dict) -> dict:
     kind, plural = kind_for(prefix, namespaced)
     inputs: dict = {}
     name, ns = prog.get("name", NAME), prog.get("apiNs", NS if namespaced else None)
-    api = {"apiVersion": API_VERSION, "kind": kind, "plural": plural, "namespaced": namespaced}
+    api_version = prog.get("apiVersion", API_VERSION)
+    sfx = prog.get("suffix", "")          # several functions prepared side by side (concurrent mode)
+    api = {"apiVersion": api_version, "kind": kind, "plural": plural, "namespaced": namespaced}
     if prog.get("nameVia"):
         inputs["objName"] = name
         api["name"] = "=inputs.objName"
@@ -318,8 +320,8 @@ def build(prog: dict) -> dict:
     # template
     ttree = layer_tree("template", prog)
     if prog.get("tmplForm") == "ref":
-        templates["tmpl"] = {"template": tree_spec(ttree, {}, "t")}
-        spec["resourceTemplateRef"] = {"name": "tmpl"}
+        templates["tmpl" + sfx] = {"template": tree_spec(ttree, {}, "t")}
+        spec["resourceTemplateRef"] = {"name": "tmpl" + sfx}
     else:
         spec["resource"] = tree_spec(ttree, inputs, "t")
     tmpl_value = tree_value(ttree)
@@ -332,8 +334,8 @@ def build(prog: dict) -> dict:
         entry: dict = {}
         if layer == "ovRef":
             vf_inputs: dict = {}
-            vfs["vf"] = {"return": tree_spec(t, vf_inputs, layer)}
-            entry["overlayRef"] = {"kind": "ValueFunction", "name": "vf"}
+            vfs["vf" + sfx] = {"return": tree_spec(t, vf_inputs, layer)}
+            entry["overlayRef"] = {"kind": "ValueFunction", "name": "vf" + sfx}
             if vf_inputs:
                 entry["inputs"] = {k: f"=inputs.{k}" for k in vf_inputs}
                 inputs.update(vf_inputs)
@@ -367,8 +369,8 @@ def build(prog: dict) -> dict:
     stored = prog.get("stored")
     objects = {}
     if stored is not None:
-        objects[(API_VERSION, plural, ns if namespaced else None, name)] = stored
-    model = {"op": "run", "api": {"ver": API_VERSION, "kind": kind, "plural": plural, "namespaced": namespaced},
+        objects[(api_version, plural, ns if namespaced else None, name)] = stored
+    model = {"op": "run", "api": {"ver": api_version, "kind": kind, "plural": plural, "namespaced": namespaced},
              "name": name, "ns": ns,
              "flags": {"readonly": bool(flags.get("readonly")), "owned": bool(flags.get("owned", True)),
                        "createEnabled": bool(flags.get("createEnabled", True)),
@@ -377,7 +379,8 @@ def build(prog: dict) -> dict:
              "owner": {"ns": owner_ns, "ref": to_wire(owner_ref)},
              "stored": None if stored is None else to_wire(stored), "defNs": "default", "precond": True}
     return {"spec": spec, "templates": templates, "vfs": vfs, "inputs": inputs, "objects": objects,
-            "owner": (owner_ns, owner_ref), "model": model, "kind": kind, "plural": plural, "name": name, "ns": ns}
+            "owner": (owner_ns, owner_ref), "model": model, "kind": kind, "plural": plural, "name": name, "ns": ns,
+            "apiVersion": api_version}
 
 
 def run_program(prog: dict) -> dict:
@@ -486,3 +489,52 @@ def owner_uids(obj) -> list:
     if not isinstance(refs, list):
         return []
     return [x.get("uid") if isinstance(x, dict) else None for x in refs]
+
+
+# ------------------------------------------------------------------ several reconciles in flight at once (C06)
+
+async def _reconcile_many(builds, latency):
+    from koreo.resource_function.reconcile import reconcile_resource_function
+    import asyncio
+
+    ku.reset()
+    fns = []
+    objects = {}
+    for i, b in enumerate(builds):
+        for name, tspec in b["templates"].items():
+            await ku.offer_resource_template(name, copy.deepcopy(tspec))
+        for name, vspec in b["vfs"].items():
+            await ku.offer_value_function(name, copy.deepcopy(vspec))
+        fns.append(await ku.offer_resource_function(f"rf{i}", copy.deepcopy(b["spec"])))
+        objects.update(copy.deepcopy(b["objects"]))
+    c = cl.Cluster(objects=objects, latency=latency)
+    c.log_lookups = True
+    if not all(hasattr(f, "crud_config") for f in fns):
+        return {"prepared": False, "cluster": c, "results": [], "prepare": [ku.outcome_obs(f) for f in fns if not hasattr(f, "crud_config")]}
+
+    async def one(fn, b):
+        try:
+            res = await reconcile_resource_function(api=c, location="verif", function=fn,
+                                                    owner=(b["owner"][0], copy.deepcopy(b["owner"][1])),
+                                                    inputs=celpy.json_to_cel(b["inputs"]))
+            return {"raised": None, "outcome": res.outcome, "resource_id": copy.deepcopy(res.resource_id)}
+        except Exception as e:
+            return {"raised": f"{type(e).__name__}: {e}", "outcome": None, "resource_id": None}
+
+    results = await asyncio.gather(*[one(f, b) for f, b in zip(fns, builds)])
+    return {"prepared": True, "cluster": c, "results": list(results)}
+
+
+def run_concurrent(progs: list, latencies: list) -> dict:
+    """the programs' functions prepared side by side and reconciled **concurrently** (asyncio.gather) against
+    one cluster under the virtual-time loop; the i-th API call sleeps latencies[i % len] (> 0: it really suspends)"""
+    import vloop
+
+    builds = [build(p) for p in progs]
+
+    def latency(i, method, key):
+        return latencies[i % len(latencies)]
+
+    out, _, _ = vloop.run_virtual(_reconcile_many(builds, latency))
+    out["builds"] = builds
+    return out
